@@ -2,3 +2,4 @@ import ElfioVerif.Basic
 import ElfioVerif.Gen.Layout
 import ElfioVerif.Gen.Funcs
 import ElfioVerif.Gen.Sites
+import ElfioVerif.Gen.SitesC09
